@@ -70,7 +70,7 @@ def run(tier, seed):
             raise TLCError("C10 design check failed: %s" % (r3.violation,))
     gcfgs = [(4, "2")] + ([(5, "3")] if tier == "thorough" else [(4, "3")])
     traces, total_paths = [], 0
-    per_init = 25 if tier == "quick" else 700
+    per_init = 20 if tier == "quick" else 700
     for mf, ws in gcfgs:
         gr, g = dump_graph("MC_Tracker", MC % (mf, "TRUE", ws), timeout=1500, workers=12)
         for cfg, hist, cnt in histories_from_graph(g, rng, per_init):
@@ -97,13 +97,13 @@ def run(tier, seed):
     from loguru import logger
     from harness.session import run_session
     logger.disable("sleap_nn")
-    n_sess = 30 if tier == "quick" else 600
+    n_sess = 24 if tier == "quick" else 600
     sess = []
     pick = rng.sample(traces, min(n_sess, len(traces)))
     for k, t in enumerate(pick):
         kind = "topdown" if k % 2 == 0 else "bottomup"
         o = run_session(kind, t["tc"], t["cfg"]["w"], t["hist"], random.Random(seed * 131 + k))
-        sess.append(dict(id=k, cfg=dict(t["cfg"]), frames=o["frames"], skipped_with_animals=o["skipped_with_animals"], kind=kind, tc=t["tc"], hist=t["hist"], raised=o["raised"]))
+        sess.append(dict(id=k, cfg=dict(t["cfg"]), frames=o["frames"], skipped_with_animals=o["skipped_with_animals"], kind=kind, tc=t["tc"], hist=t["hist"], raised=o["raised"], stream=o.get("stream")))
     js = judge("Trace_System", [dict(id=x["id"], cfg=x["cfg"], frames=x["frames"], skipped_with_animals=x["skipped_with_animals"]) for x in sess],
                cfg_text=TRACE_CFG, per_shard_min=20, timeout=900)
     res.add_judge("Trace_System", js, "whole predict(make_labels=True) sessions with a real Tracker attached (top-down / bottom-up, ideal stubs)")
@@ -111,6 +111,14 @@ def run(tier, seed):
         x = sess[int(cid)]
         res.violation(dict(where="session:" + x["kind"], store=x["tc"]["store"], kind=clause.split("_at_frame_")[0]), clause,
                       dict(session=True, kind=x["kind"], tc=x["tc"], w=x["cfg"]["w"], hist=x["hist"], frames=x["frames"]), "%s %s hist=%s %s" % (x["kind"], x["tc"], x["hist"], x["raised"]))
+    # the SAME executions projected on FrameStream (reader / queue / consumer events under the queue mutex): composition
+    st = [dict(id=x["id"], cfg=x["stream"]["cfg"], ev=x["stream"]["ev"]) for x in sess if x.get("stream")]
+    jf = judge("Trace_FrameStream", st, cfg_text="INIT Init\nNEXT Next\nCONSTRAINT Check\nPOSTCONDITION Report\nCHECK_DEADLOCK FALSE\n", per_shard_min=20, timeout=900)
+    res.add_judge("Trace_FrameStream (sessions)", jf, "the same sessions as reader/queue/consumer traces")
+    for cid, clause in jf["rejected"]:
+        x = sess[int(cid)]
+        res.violation(dict(where="session:" + x["kind"], store=x["tc"]["store"], kind="stream:" + clause.split("_for_event")[0]), clause,
+                      dict(session=True, kind=x["kind"], tc=x["tc"], w=x["cfg"]["w"], hist=x["hist"], frames=x["frames"], stream=x["stream"]), "stream trace of session %s hist=%s" % (x["kind"], x["hist"]))
     res.coverage["system_sessions"] = len(sess)
     res.coverage.update(evaluations=len(traces) + len(sess), distinct_nontrivial=len({(str(t["tc"]), t["cfg"]["w"], str(t["hist"])) for t in traces if len(t["hist"]) >= 2 and any(len(D) >= 2 for D in t["hist"])}),
                         exhaustive=False,
